@@ -8,6 +8,10 @@ checks, na = [], []
 for p in props:
     pid = p["id"]
     m = meta["checks"].get(pid)
+    pm = os.path.join(ROOT, "checks", pid.lower(), "manifest.json")
+    if os.path.exists(pm):
+        m = json.load(open(pm))
+        m["claimed"] = bool(m.get("ready"))
     built = os.path.isdir(os.path.join(ROOT, "checks", pid.lower())) and m and m.get("claimed", True)
     if not built:
         na.append({"property_id": pid, "reason": (m or {}).get("na_reason", "check not built yet in this session (work in progress; see DESIGN.md section 3 for the planned generator/oracle)")})
